@@ -28,6 +28,7 @@ type PEnv struct {
 	To    string `json:"to"`             // destination name as written by the sender
 	Spoof int    `json:"spoof,omitempty"` // 1: source differs from the sender's name, 2: no header
 	Next  string `json:"next,omitempty"`  // proxy_next entry (route), if any
+	Shape int    `json:"shape,omitempty"` // 0 body, 1 body+trailer+status, 2 body+reset (what the proxy forwards must not depend on it)
 }
 
 type ProxyParams struct {
@@ -75,11 +76,16 @@ func genProxyRaw(hostile bool) func(g *rand.Rand, tier string) any {
 		if hostile {
 			// third peer with a role
 			bad := PeerSpec{Name: "bad", Role: 1 + g.IntN(3)}
-			switch g.IntN(5) {
+			switch g.IntN(6) {
 			case 0:
 				bad.Role, bad.Dial, bad.DialErr = 0, true, true
 			case 1:
 				bad.Role, bad.Dial = 0, true // slow dial
+			case 2:
+				bad.Dial = true // dialled on demand, then its connection fails (role 2 or 3)
+				if bad.Role == 1 {
+					bad.Role = 2
+				}
 			}
 			p.Peers = append(p.Peers, bad)
 			p.Reattach = g.IntN(4) // 3: concurrently with the handling of the old connection's failure
@@ -118,7 +124,27 @@ func genProxyRaw(hostile bool) func(g *rand.Rand, tier string) any {
 					ev.Spoof = 1 + g.IntN(2)
 				}
 			}
+			if g.IntN(4) == 0 {
+				ev.Shape = 1 + g.IntN(2)
+			}
 			p.Envs = append(p.Envs, ev)
+		}
+		if hostile && len(p.Peers) == 4 && p.Peers[3].Role == 1 && g.IntN(2) == 0 {
+			// a stuck peer with a long backlog: more than the proxy's 16-slot
+			// buffer, ending in stream-terminating envelopes, mixed with traffic
+			// between the healthy peers
+			k := 18 + g.IntN(12)
+			for i := 0; i < k; i++ {
+				ev := PEnv{From: g.IntN(2), To: "bad"}
+				if i >= 16 || g.IntN(5) == 0 {
+					ev.Shape = 1 + g.IntN(2)
+				}
+				p.Envs = append(p.Envs, ev)
+				if g.IntN(2) == 0 {
+					p.Envs = append(p.Envs, PEnv{From: g.IntN(3), To: []string{"c0", "c1", "s0"}[g.IntN(3)]})
+				}
+			}
+			n = len(p.Envs)
 		}
 		p.FailAt = g.IntN(n + 1)
 		return p
@@ -128,6 +154,7 @@ func genProxyRaw(hostile bool) func(g *rand.Rand, tier string) any {
 type rawPeer struct {
 	spec    PeerSpec
 	first   *End // peer side of the first connection (the one role faults hit)
+	firstPx *End // proxy side of the first connection
 	end     *End // peer side
 	pxEnd   *End // proxy side
 	gen     int  // connection generation (re-attach)
@@ -230,6 +257,7 @@ func execProxyRaw(e *Env, pp any) {
 		}
 	}
 	dials := map[string]int{}
+	var releaseFn func(n string, r *Rpc)
 	maybeSent := map[string]int{}
 	attachedEv := map[string]int{} // late peers: event count when AddClient had returned
 	px := goat.NewProxy(pctx, proxyName, func(id string) (goat.RpcReadWriter, error) {
@@ -246,8 +274,16 @@ func execProxyRaw(e *Env, pp any) {
 		}
 		rp := peers[id]
 		a, b := mkConn(id, rp.gen)
+		if len(taps) > 0 {
+			t := taps[len(taps)-1]
+			t.l.OnWritten(func(_ int, r *Rpc) { releaseFn(t.name, r) })
+		}
 		rp.end, rp.pxEnd = a, b
-		startReader(rp, rp.gen)
+		if rp.first == nil {
+			rp.first, rp.firstPx = a, b
+		}
+		rp.gen++
+		startReader(rp, rp.gen-1)
 		return b, nil
 	}, icpt, func(id string, reason error) {
 		histMu.Lock()
@@ -261,7 +297,7 @@ func execProxyRaw(e *Env, pp any) {
 			continue
 		}
 		a, b := mkConn(n, 0)
-		rp.end, rp.pxEnd, rp.first = a, b, a
+		rp.end, rp.pxEnd, rp.first, rp.firstPx = a, b, a, b
 		if rp.spec.Late {
 			// attaches itself while envelopes addressed to it may already be arriving
 			name, rp2, b2 := n, rp, b
@@ -306,6 +342,7 @@ func execProxyRaw(e *Env, pp any) {
 			}
 		}
 	}
+	releaseFn = release
 	for i := range taps {
 		t := taps[i]
 		t.l.OnWritten(func(_ int, r *Rpc) { release(t.name, r) })
@@ -431,7 +468,7 @@ func execProxyRaw(e *Env, pp any) {
 				}
 				if deliverable {
 					se.final, se.accepted = final, true
-					if ch := credit[final]; ch != nil {
+					if ch := credit[final]; ch != nil && !(p.Hostile && final == "bad") {
 						ch <- struct{}{} // blocks while 12 are outstanding for that destination
 						histMu.Lock()
 						holdsToken[payload] = true
@@ -439,6 +476,12 @@ func execProxyRaw(e *Env, pp any) {
 					}
 				}
 				r := &Rpc{Id: uint64(1000 + i), Body: &goatorepo.Body{Data: []byte(payload)}}
+				switch ev.Shape {
+				case 1:
+					r.Trailer, r.Status = &goatorepo.Trailer{}, &goatorepo.ResponseStatus{}
+				case 2:
+					r.Reset_ = &goatorepo.Reset{Type: "RST_STREAM"}
+				}
 				if ev.Spoof != 2 {
 					r.Header = &goatorepo.RequestHeader{Method: "/raw/M", Source: name, Destination: ev.To}
 					if ev.Spoof == 1 {
@@ -714,7 +757,9 @@ func execProxyRaw(e *Env, pp any) {
 					gotDisc = true
 				}
 			}
-			if p.Reattach == 0 && gotDisc && has("bad") {
+			// (a later envelope may legitimately have re-dialled a dialable peer: only
+			// the failed connection object itself must be gone)
+			if p.Reattach == 0 && gotDisc && has("bad") && bad.firstPx != nil && goat.VerifProxyConn(px, "bad") == goat.RpcReadWriter(bad.firstPx) {
 				e.Violate(prop, "failed-connection-kept", badRoleName(bad), "the failed connection of bad is still registered with the proxy")
 			}
 			if p.Reattach != 0 && gotDisc {
